@@ -7,7 +7,7 @@
 From Coq Require Import ZArith List Bool.
 From RecordUpdate Require Import RecordSet.
 From Common Require Import Res.
-From Core Require Import World Model Step Reach Rel_Frame Proofs_C03 Proofs_C03b Proofs_C03c Proofs_C03d.
+From Core Require Import World Model Step Reach Rel_Frame Proofs_C03 Proofs_C03b Proofs_C03c Proofs_C03d Proofs_C03e.
 Import ListNotations RecordSetNotations.
 Open Scope Z_scope.
 
@@ -277,3 +277,40 @@ Example C03_refuted_consume_single_repeat_eot :
      pstate w' = Stopped /\ current w' = None /\ queue w' = [].
 Proof. vm_compute. repeat split; reflexivity. Qed.
 Print Assumptions C03_refuted_consume_single_repeat_eot.
+
+(* single: the player stops after the current track - wherever the entry sits in the tracklist,
+   whatever random is (consume off, repeat off) ... *)
+Theorem C03_single_stops_after_current :
+  forall shuf f c len w,
+  single w = true -> repeat w = false -> consume w = false ->
+  settled_on w c -> pstate w = Playing -> a_atf_done w = false -> len_of w (trk c) = Some len ->
+  let w' := run_world shuf (S f) w [AboutToFinish; Deliver] in
+  current w' = None /\ pstate w' = Stopped /\ pending w' = None /\ queue w' = []
+  /\ a_uri w' = None /\ World.tl w' = World.tl w
+  /\ events w' = EvEnded c (a_pos w) :: EvStateChanged Playing Stopped :: events w.
+Proof. exact single_stops. Qed.
+Print Assumptions C03_single_stops_after_current.
+
+(* ... or repeats it when combined with repeat: the same entry starts again (ended / started
+   announced for it), the tracklist untouched. *)
+Theorem C03_single_repeat_repeats_current :
+  forall shuf f c len w,
+  single w = true -> repeat w = true -> consume w = false ->
+  settled_on w c -> pstate w = Playing -> a_atf_done w = false -> len_of w (trk c) = Some len ->
+  accepts w c ->
+  let w' := run_world shuf (S f) w [AboutToFinish; Deliver; Deliver] in
+  settled_on w' c /\ pstate w' = Playing /\ World.tl w' = World.tl w
+  /\ events w' = EvStarted c :: EvStateChanged Playing Playing :: EvEnded c len :: events w.
+Proof. exact single_repeat_repeats. Qed.
+Print Assumptions C03_single_repeat_repeats_current.
+
+Example C03_single_example :
+  let w0 := run_world shuf_concrete 50 (init_world 50 [Playable; Playable; Playable] [Some 900; Some 900; Some 900] [] None None)
+              [Add [0; 1; 2] None; SetMode 3 true; Play (Some 2); Deliver; Deliver; Deliver; Deliver] in
+  let w1 := run_world shuf_concrete 50 w0 [AboutToFinish; Deliver] in
+  let w2 := run_world shuf_concrete 50 w0 [SetMode 2 true; AboutToFinish; Deliver; Deliver] in
+  option_map tlid (current w0) = Some 2 /\ pstate w0 = Playing /\ queue w0 = [] /\ single w0 = true
+  /\ current w1 = None /\ pstate w1 = Stopped
+  /\ option_map tlid (current w2) = Some 2 /\ pstate w2 = Playing.
+Proof. vm_compute. repeat split; reflexivity. Qed.
+Print Assumptions C03_single_example.
